@@ -47,7 +47,7 @@ theorem seek_once_false :
     can represent; contents of any size: empty, shorter than a block, multiples of 512, large). -/
 theorem read_write_roundtrip (c : Codec) (ms : List Member) (p : Nat → Nat → Nat)
     (hv : ∀ m ∈ ms, c.valid m.name m.data.length) :
-    readArchive c { data := writeArchive c ms, policy := p } = .ok ms := by
+    readArchive c.dec { data := writeArchive c ms, policy := p } = .ok ms := by
   unfold readArchive
   have hlen : (writeArchive c ms).length = (writeMembers c ms).length + 1024 +
       (10240 - ((writeMembers c ms).length + 1024) % 10240) % 10240 := by
@@ -61,7 +61,7 @@ theorem read_write_roundtrip (c : Codec) (ms : List Member) (p : Nat → Nat →
     have : ms.length ≤ (writeArchive c ms).length / 512 := by
       rw [Nat.le_div_iff_mul_le (by decide)]; omega
     omega
-  show readMembers c _ (mkReader (writeArchive c ms) p 0) 0 [] = _
+  show readMembers c.dec _ (mkReader (writeArchive c ms) p 0) 0 [] = _
   rw [hf, readMembers_peel c p _ (closing (writeMembers c ms).length) ms (writeArchive c ms) 0 0 [] hv (Nat.le_refl _)
     (by simp [writeArchive])]
   obtain ⟨k, hk'⟩ : ∃ k, (writeArchive c ms).length / 512 + 1 - ms.length = k + 1 := ⟨_, (Nat.succ_pred_eq_of_pos hk).symm⟩
@@ -75,20 +75,20 @@ theorem read_write_roundtrip (c : Codec) (ms : List Member) (p : Nat → Nat →
 
 /-- the extracted members do not depend on how the stream is chunked -/
 theorem read_policy_independent (c : Codec) (data : List Byte) (p p' : Nat → Nat → Nat) :
-    readArchive c { data := data, policy := p } = readArchive c { data := data, policy := p' } :=
+    readArchive c.dec { data := data, policy := p } = readArchive c.dec { data := data, policy := p' } :=
   readMembers_policy c p p' _ data 0 0 []
 
 /-- **Truncation at a member boundary is accepted silently** (known finding): a stream that ends right after the blocks
     of `ms` — the remaining members and the end-of-archive marker are missing — reads as a complete archive `ms`. -/
 theorem truncated_at_boundary_silent (c : Codec) (ms : List Member) (p : Nat → Nat → Nat) (hne : ms ≠ [])
     (hv : ∀ m ∈ ms, c.valid m.name m.data.length) :
-    readArchive c { data := writeMembers c ms, policy := p } = .ok ms := by
+    readArchive c.dec { data := writeMembers c ms, policy := p } = .ok ms := by
   unfold readArchive
   have hge := writeMembers_length_ge c ms
   have hle : ms.length ≤ (writeMembers c ms).length / 512 := by
     rw [Nat.le_div_iff_mul_le (by decide)]; omega
   have hf : (writeMembers c ms).length / 512 + 1 = ms.length + ((writeMembers c ms).length / 512 + 1 - ms.length) := by omega
-  show readMembers c _ (mkReader (writeMembers c ms) p 0) 0 [] = _
+  show readMembers c.dec _ (mkReader (writeMembers c ms) p 0) 0 [] = _
   rw [hf, readMembers_peel c p _ [] ms (writeMembers c ms) 0 0 [] hv (Nat.le_refl _) (by simp)]
   simp only [Nat.zero_add, List.nil_append]
   have hpos : (writeMembers c ms).length ≠ 0 := by
@@ -101,7 +101,7 @@ theorem truncated_at_boundary_silent (c : Codec) (ms : List Member) (p : Nat →
     the member's bytes; the member is extracted with those `j` bytes and no error is raised. -/
 theorem truncated_in_data_silent (c : Codec) (ms : List Member) (m : Member) (j : Nat) (p : Nat → Nat → Nat)
     (hv : ∀ x ∈ ms, c.valid x.name x.data.length) (hm : c.valid m.name m.data.length) (hj : j < m.data.length) :
-    readArchive c { data := writeMembers c ms ++ (c.enc m.name m.data.length ++ m.data.take j), policy := p }
+    readArchive c.dec { data := writeMembers c ms ++ (c.enc m.name m.data.length ++ m.data.take j), policy := p }
       = .ok (ms ++ [{ name := m.name, data := m.data.take j }]) := by
   unfold readArchive
   have hge := writeMembers_length_ge c ms
@@ -113,7 +113,7 @@ theorem truncated_in_data_silent (c : Codec) (ms : List Member) (m : Member) (j 
   obtain ⟨k, hk⟩ : ∃ k, (writeMembers c ms ++ (c.enc m.name m.data.length ++ m.data.take j)).length / 512 + 1
       = ms.length + (k + 2) :=
     ⟨(writeMembers c ms ++ (c.enc m.name m.data.length ++ m.data.take j)).length / 512 + 1 - ms.length - 2, by omega⟩
-  show readMembers c _ (mkReader _ p 0) 0 [] = _
+  show readMembers c.dec _ (mkReader _ p 0) 0 [] = _
   rw [hk, readMembers_peel c p _ (c.enc m.name m.data.length ++ m.data.take j) ms
     (writeMembers c ms ++ (c.enc m.name m.data.length ++ m.data.take j)) 0 0 [] hv (Nat.le_refl _) (by simp)]
   simp only [Nat.zero_add, List.nil_append]
@@ -142,7 +142,7 @@ theorem truncated_in_data_silent (c : Codec) (ms : List Member) (m : Member) (j 
 /-- the full-strength statement "every proper prefix of an archive makes the read fail" is FALSE of the code -/
 theorem truncation_fails_false (c : Codec) (m : Member) (p : Nat → Nat → Nat) (hm : c.valid m.name m.data.length) :
     ¬ (∀ n, n < (writeArchive c [m, m]).length →
-        readArchive c { data := (writeArchive c [m, m]).take n, policy := p } = .error) := by
+        readArchive c.dec { data := (writeArchive c [m, m]).take n, policy := p } = .error) := by
   intro h
   have hcut : (writeArchive c [m, m]).take (writeMembers c [m]).length = writeMembers c [m] := by
     have : writeArchive c [m, m] = writeMembers c [m] ++ (writeMembers c [m] ++ closing (writeMembers c [m, m]).length) := by
@@ -156,12 +156,12 @@ theorem truncation_fails_false (c : Codec) (m : Member) (p : Nat → Nat → Nat
 
 /-- what does hold: a stream cut inside the *first* header block (or empty) fails -/
 theorem truncation_first_header_partial (c : Codec) (data : List Byte) (p : Nat → Nat → Nat) (h : data.length < 512) :
-    readArchive c { data := data, policy := p } = .error := by
+    readArchive c.dec { data := data, policy := p } = .error := by
   unfold readArchive
   have hf : data.length / 512 + 1 = 0 + 1 := by
     have : data.length / 512 = 0 := Nat.div_eq_of_lt h
     omega
-  show readMembers c _ (mkReader data p 0) 0 [] = _
+  show readMembers c.dec _ (mkReader data p 0) 0 [] = _
   rw [hf]
   have hs := seek_mk data p 0 0 (Nat.le_refl _)
   simp only [Nat.sub_self, List.drop_zero] at hs
@@ -220,7 +220,7 @@ def toyCodec : Codec where
   enc_nonzero := by intro n s _; simp [toyEnc, List.take_succ_cons]
 
 example (p : Nat → Nat → Nat) :
-    readArchive toyCodec { data := writeArchive toyCodec [⟨[97], [1, 2, 3]⟩, ⟨[98], []⟩], policy := p }
+    readArchive toyCodec.dec { data := writeArchive toyCodec [⟨[97], [1, 2, 3]⟩, ⟨[98], []⟩], policy := p }
       = .ok [⟨[97], [1, 2, 3]⟩, ⟨[98], []⟩] :=
   read_write_roundtrip toyCodec _ p (by simp [toyCodec])
 
